@@ -237,6 +237,25 @@ def gen_cluster(rng, lose_mark):
     return {"class": "cluster-lose" if lose_mark else "cluster", "ops": ops, "nodes": n}
 
 
+def gen_cluster_alternating(rng):
+    """leadership alternates between two (or three) nodes, each leader issuing only a few ids of its block before it is
+    deposed: an ex-leader that leads again still holds the rest of an old block while the others have moved on"""
+    n = rng.choice([2, 2, 3])
+    ops = []
+    leader = 0
+    for _ in range(rng.randrange(4, 9)):
+        for _ in range(rng.randrange(1, 4)):
+            ops += [("node", leader), ("catch_up", KCFG), ("alloc",), ("settle", "commit"), ("apply_next", KCFG)]
+        for i in range(n):
+            if rng.random() < 0.7:
+                ops += [("node", i), ("catch_up", KCFG)]
+        leader = (leader + rng.randrange(1, n)) % n
+    for i in range(n):
+        ops += [("node", i), ("catch_up", KCFG), ("hist", ("d", "g", "t"), 0, 1000), ("dump_seq",)]
+    ops.append(("log",))
+    return {"class": "cluster", "ops": ops, "nodes": n}
+
+
 def witness_lost_mark():
     """first next_state opens a block (mark 100), its write is lost; ids 2,3,4 are committed without
     mark; restart + replay -> ids 1,2,3 are issued again"""
@@ -593,6 +612,8 @@ def run(chk, replay=None):
         clusters.append(gen_cluster(rng, False))
     for _ in range(30 if quick else 300):
         clusters.append(gen_cluster(rng, True))
+    for _ in range(30 if quick else 300):
+        clusters.append(gen_cluster_alternating(rng))
     cimpl = lib.harness_run_parallel("config", [cm.harness_case(c["ops"]) for c in clusters], timeout=1800)
     for c, r in zip(clusters, cimpl):
         classes[c["class"]] = classes.get(c["class"], 0) + 1
